@@ -327,6 +327,7 @@ var c06Contexts = []struct {
 }{
 	{"top", "", ""},
 	{"func", "func ctx() {\n", "}\nctx()\n"},
+	{"deadfunc", "func ctx() {\n", "}\n"}, // a function nobody calls: removed before the converters see it, so only the parser can reject
 	{"if", "if vb {\n", "}\n"},
 	{"for", "for kk := 0; kk < 1; kk++ {\n", "}\n"},
 	{"switch", "switch vi {\ncase 1:\n", "}\n"},
